@@ -372,6 +372,7 @@ class Unit:
         base = len(g.lines)
         rel = os.path.relpath(path, VERIF)
         label = None
+        last_fn = None
         for k, l in enumerate(txt.split("\n")):
             g.lines.append(l)
             m = re.match(r"\s*//\s*label:\s*\[?([A-Za-z0-9_.\-]+)\]?", l)
@@ -384,6 +385,14 @@ class Unit:
                 if kind == "lemma" and mm.group(1) == "proof" and label:
                     self.labels[label] = dict(fn=mm.group(2), kind="lemma", line=base + k + 1, text=l.strip())
                 label = None
+                last_fn = mm.group(2)
+            # a `requires` line of a prelude stub may carry a property label as a trailing comment
+            # `//@requires [Cxx.name]`: like a labelled requires of contracts.vspec it is an obligation that is
+            # checked (and named) at every call site of the stub in extracted code
+            mr = re.search(r"//@requires\s*\[([A-Za-z0-9_.\-]+)\]\s*$", l) if kind == "prelude" else None
+            if mr:
+                o = dict(kind="clause", label=mr.group(1), fn=last_fn or "?", clause="requires", text=l.strip())
+                self.labels.setdefault(mr.group(1), dict(fn=o["fn"], kind="requires", line=base + k + 1, text=l.strip()))
             g.origin.append(o)
             if re.search(r"external_body|assume_specification|\bassume\s*\(|\badmit\s*\(|external_type_specification|uninterp\b|#\[verifier::external", l):
                 self.assumptions.append(dict(file=rel, line=k + 1, text=l.strip()[:160]))
